@@ -2,7 +2,7 @@
 """usage: seed_store.py <worktree> <seed-name> <property> <ctest-regex> [--full]
 Confirms a seeded defect in its scratch worktree (patch applies, builds, related tests [or the full
 non-flaky suite] pass, demo fails with / passes without the patch), runs the property's quick check
-against /repo with the patch applied (and restores /repo), and stores everything under
+against the worktree with the patch applied (VERIF_REPO), and stores everything under
 /verif/seeded/<property>-<seed-name>/."""
 import json, os, shutil, subprocess, sys
 V = os.path.dirname(os.path.dirname(os.path.abspath(__file__)))
@@ -33,20 +33,28 @@ rc2, out2 = sh(demo_cmd, wt)
 res["demo_without_patch"] = {"rc": rc2, "tail": out2[-300:]}
 try: os.unlink(os.path.join(sd, "demo.bin"))
 except OSError: pass
-# run our check against /repo with the patch
-rc, out = sh("git -C /repo status --short | grep -v '^??' | head -1")
-if out.strip(): print("/repo has uncommitted changes; refusing"); sys.exit(1)
-rc, out = sh("git -C /repo apply %s/patch.diff" % sd)
+# run our check against the seed's own worktree with the patch applied (never touches /repo, so checks that
+# other sessions run against /repo meanwhile are not disturbed); evidence is restored afterwards
+head_repo = sh("git -C /repo rev-parse HEAD")[1].strip(); head_wt = sh("git rev-parse HEAD", wt)[1].strip()
+if head_repo != head_wt:
+    sh("git checkout -q --detach %s" % head_repo, wt)   # evaluate against the current /repo HEAD if the patch still applies
+rc, out = sh("git apply %s/patch.diff" % sd, wt)
+if rc and head_repo != head_wt:
+    sh("git checkout -q --detach %s" % head_wt, wt)      # otherwise against the commit the seed was written for
+    res["check_base"] = head_wt
+    rc, out = sh("git apply %s/patch.diff" % sd, wt)
 if rc:
     res["check"] = "patch does not apply to /repo HEAD: " + out[-300:]
 else:
+    ev = os.path.join(V, "evidence", "%s.json" % prop)
+    keep = open(ev).read() if os.path.exists(ev) else None
     try:
-        rc, out = sh("python3 tools/check.py --property %s --tier quick" % prop, V, timeout=3000)
+        rc, out = sh("VERIF_REPO=%s python3 tools/check.py --property %s --tier quick" % (wt, prop), V, timeout=3000)
         res["check"] = {"rc": rc, "lines": [l[:300] for l in out.split("\n") if l.startswith(("VIOLATION", "OK ", "FAIL ", "KNOWN", "INFO"))][:8]}
     finally:
-        sh("git -C /repo checkout -- .")
-        # evidence of the property was overwritten by the run on the patched tree: refresh it on the clean tree
-        sh("python3 tools/check.py --property %s --tier quick" % prop, V, timeout=3000)
+        sh("git checkout -q -- .", wt)
+        if keep is not None:
+            open(ev, "w").write(keep)
 dst = os.path.join(V, "seeded", "%s-%s" % (prop, name))
 os.makedirs(dst, exist_ok=True)
 for f in ("patch.diff", "demo.cpp"):
